@@ -17,6 +17,8 @@ def mutants(prog):
     from .common import source_sub
     G = "deepali.core.grid"
     specs = [
+        ('pyramid: min_size clamps instead of keeping the finer size', 'deepali.core.grid', 'Grid.pyramid', 'sizes[level][dim] = sizes[level - 1][dim]', 'sizes[level][dim] = min_size', 'T9.resize-family'),
+        ('apply_transform rounds world coordinates by default', 'deepali.core.grid', 'Grid.apply_transform', 'elif to_axes is Axes.GRID:\n            decimals = 6', 'else:\n            decimals = 6', 'T9.crop-family'),
         ("crop origin from high", G, "Grid.crop", "origin = self.index_to_world(num_[::2])", "origin = self.index_to_world(num_[1::2])", "op=crop"),
         ("pad sign", G, "Grid.pad", "origin = self.index_to_world(-num_[::2])", "origin = self.index_to_world(num_[::2])", "op=pad"),
         ("pad size", G, "Grid.pad", "self._size + num_[::2] + num_[1::2]", "self._size + num_[::2] + num_[::2]", "op=pad"),
